@@ -47,6 +47,11 @@ func c01Random(seed uint64, i int, ntexts int) *c01Case {
 	if i%4 == 1 {
 		ta = TextAlphaBoundary(sc.Alpha)
 	}
+	if i%4 == 3 {
+		// the property quantifies over all byte strings: UTF-8 lead AND continuation bytes, valid pairs,
+		// stray continuation bytes, 0xff (the Go-regexp cross-check skips these texts, the reference does not)
+		ta = append(ta, 0xA9, 0xA9, 0x89, 0xBF, 0x80, 0xFF, 0xE2, 0x82, 0xAC)
+	}
 	sm := gen.NewSampler(rng, p, ta)
 	texts := sm.Inputs(p.Commands[0].Body, ntexts, maxLenFor(p, 14))
 	return &c01Case{p, src, texts}
